@@ -209,6 +209,9 @@ def aggregate(prop, jobname, job, cases_path, results_path, acc):
             if l.startswith('{"begin"'):
                 continue
             r = json.loads(l)
+            if r.get("aborted"):
+                acc["excluded"]["not-run-after-repeated-crashes-or-hangs"] += r["aborted"]
+                continue
             i = r["i"]
             mine_ok = [o for o in r["ok"] if o.split(":")[0] == prop]
             mine_bad = [b for b in r["bad"] if b["prop"] in (prop, "TOOL")]
